@@ -132,7 +132,7 @@ func runC09(c *Ctx) {
 	h.Init()
 	w.MustGit(u1, "remote", "add", "origin", remote)
 	w.ConfigureClone(u1, map[string]string{"lfs.concurrenttransfers": "1"})
-	kind := []string{"add", "add-oneshot", "fetch", "pull", "checkout", "fsck", "prune", "migrate", "reference", "fetch-custom", "alternates"}[t.Choose(11, "crash-scenario")]
+	kind := []string{"add", "add-oneshot", "fetch", "pull", "checkout", "fsck", "prune", "migrate", "reference", "fetch-custom", "alternates", "fetch-ssh"}[t.Choose(12, "crash-scenario")]
 	if k := os.Getenv("VERIF_C09_KIND"); k != "" {
 		kind = k // debugging aid: force one scenario kind
 	}
@@ -161,7 +161,7 @@ func runC09(c *Ctx) {
 			os.WriteFile(gc, []byte(strings.Replace(string(b), "\tprocess = git-lfs filter-process\n", "", 1)), 0644)
 		}
 		sc.dir, sc.gitDir, sc.args = u1, filepath.Join(u1, ".git"), []string{"add", "-A"}
-	case "reference", "fetch-custom", "alternates":
+	case "reference", "fetch-custom", "alternates", "fetch-ssh":
 		n := 1 + t.Choose(3, "n-files")
 		for i := 0; i < n; i++ {
 			h.WriteFile(fmt.Sprintf("f%d.bin", i), bigContent())
@@ -204,6 +204,21 @@ func runC09(c *Ctx) {
 			copyTreeFull(u1, ref)
 			w.Srv.Store = map[string][]byte{} // the server cannot help
 			cloneArgs = append(cloneArgs, "--no-checkout", "--reference", ref)
+		} else if kind == "fetch-ssh" {
+			// the pure SSH transfer adapter against the scripted peer
+			src := filepath.Join(w.Root, "ssh-store")
+			os.MkdirAll(src, 0755)
+			get := map[string][]string{}
+			for oid, data := range h.Contents {
+				os.WriteFile(filepath.Join(src, oid), data, 0644)
+				get[oid] = []string{[]string{"ok", "ok", "ok", "bitflip", "truncated", "die-midstream"}[t.Choose(6, "ssh-peer-behaviour")]}
+				if get[oid][0] != "ok" {
+					sc.mayFail = true
+				}
+			}
+			env, _ := sshSetup(w, map[string]interface{}{"source": src, "pure": true, "get": get, "chunk": []int{32768, 1000, 65516}[t.Choose(3, "packet-size")]})
+			w.ExtraEnv = append(w.ExtraEnv, env...)
+			cloneArgs = []string{"clone", "-q", "-c", "lfs.url=ssh://git@simhost/repo.git", "-c", "lfs.ssh.automultiplex=false", "-c", "lfs.concurrenttransfers=1", "-c", "lfs.transfer.maxretries=1", "-c", "lfs.transfer.maxretrydelay=0"}
 		} else {
 			src := filepath.Join(w.Root, "agent-src")
 			tmp := filepath.Join(w.Root, "agent-tmp")
